@@ -87,6 +87,7 @@ type Server struct {
 	FSRO    bool
 
 	lastWorldChange time.Duration // last scenario-driven change of this server (not by mysync)
+	LagOverride     *float64      // scripted answer of the custom replication_lag query
 }
 
 type slaveEvent struct{ schema, name, definer string }
@@ -483,6 +484,14 @@ func (w *World) exec(sv *Server, c *call) (res sqlResult, deferred bool) {
 		}
 		return one(cols, sv.Source, int64(3306), file, pos, ioState, yn(sv.SQLRun), sv.LastError, sv.Retrieved.String(), sv.Executed.String(),
 			int64(sv.LastIOErrno), sv.LastIOError, int64(sv.LastSQLErrno), lag), false
+	case strings.HasPrefix(q, "SELECT verif_lag AS Seconds_Behind_Master"):
+		if !sv.HasChannel {
+			return sqlResult{cols: []string{"Seconds_Behind_Master"}}, false
+		}
+		if sv.LagOverride != nil {
+			return one([]string{"Seconds_Behind_Master"}, *sv.LagOverride), false
+		}
+		return one([]string{"Seconds_Behind_Master"}, sv.lagSeconds(s.now())), false
 	case strings.HasPrefix(q, "SELECT @@GLOBAL.gtid_executed"):
 		return one([]string{"Executed_Gtid_Set"}, sv.Executed.String()), false
 	case strings.HasPrefix(q, "SELECT @@server_uuid"):
